@@ -381,6 +381,30 @@ example : search exAv 4 1 15 = 3 ∧ searchL exAv 4 1 15 = (3, [0, 1, 2, 3, 2]) 
 example : search exAv 4 1 5 = 1 := by decide
 example : search exAv 4 1 40 = 4 := by decide
 example : search exAv 4 1 41 = 4 := by decide
+/-- the hypotheses of the theorems on this directory: time stamps increase with the sequence number -/
+example : Mono exAv := by
+  intro i j a b hij hi hj
+  unfold exAv at hi hj
+  have hi' : (i = 1 ∧ a = 10) ∨ (i = 3 ∧ a = 30) ∨ (i = 4 ∧ a = 40) := by
+    split at hi
+    · left; simp_all
+    · split at hi
+      · right; left; simp_all
+      · split at hi
+        · right; right; simp_all
+        · cases hi
+  have hj' : (j = 1 ∧ b = 10) ∨ (j = 3 ∧ b = 30) ∨ (j = 4 ∧ b = 40) := by
+    split at hj
+    · left; simp_all
+    · split at hj
+      · right; left; simp_all
+      · split at hj
+        · right; right; simp_all
+        · cases hj
+  rcases hi' with ⟨rfl, rfl⟩ | ⟨rfl, rfl⟩ | ⟨rfl, rfl⟩ <;> rcases hj' with ⟨rfl, rfl⟩ | ⟨rfl, rfl⟩ | ⟨rfl, rfl⟩ <;> omega
+/-- the minimum missing (the stater starts at 2, which is not there): the ascent finds its bounds and the answer is
+    the first state at or after t -/
+example : exAv 2 = none ∧ search exAv 4 2 15 = 3 ∧ findBound exAv 15 (4 * 4 + 4 + 2) 1 4 = (1, 4) := by decide
 
 /-! ## the planet layout -/
 section Layout
